@@ -20,6 +20,7 @@ package leveldbstore
 
 import (
 	"github.com/ethereum/go-ethereum/common/fdlimit"
+	"github.com/polynetwork/poly/common/verifhook"
 	"github.com/polynetwork/poly/core/store/common"
 	"github.com/syndtr/goleveldb/leveldb"
 	"github.com/syndtr/goleveldb/leveldb/errors"
@@ -94,6 +95,7 @@ func NewMemLevelDBStore() (*LevelDBStore, error) {
 
 //Put a key-value pair to leveldb
 func (self *LevelDBStore) Put(key []byte, value []byte) error {
+	verifhook.Persist("leveldb.put")
 	return self.db.Put(key, value, nil)
 }
 
@@ -116,6 +118,7 @@ func (self *LevelDBStore) Has(key []byte) (bool, error) {
 
 //Delete the the in leveldb
 func (self *LevelDBStore) Delete(key []byte) error {
+	verifhook.Persist("leveldb.delete")
 	return self.db.Delete(key, nil)
 }
 
@@ -136,6 +139,7 @@ func (self *LevelDBStore) BatchDelete(key []byte) {
 
 //BatchCommit commit batch to leveldb
 func (self *LevelDBStore) BatchCommit() error {
+	verifhook.Persist("leveldb.batch")
 	err := self.db.Write(self.batch, nil)
 	if err != nil {
 		return err
